@@ -292,7 +292,13 @@ class Ctx:
             self._dump("build.out", p.stdout)
             raise ToolError("harness build failed for %s:\n%s" % (crate, p.stdout[-3000:]))
         self.log("built %s in %.1fs" % (crate, time.time() - t))
-        return os.path.join(HARNESS, "target", "debug", crate)
+        # run a private copy: another check that builds the same executor meanwhile replaces the file in target/
+        # (executors that start themselves again as worker processes could not find it for a moment)
+        bindir = os.path.join(self.work, "bin")
+        os.makedirs(bindir, exist_ok=True)
+        private = os.path.join(bindir, crate)
+        shutil.copy2(os.path.join(HARNESS, "target", "debug", crate), private)
+        return private
 
     def harness(self, binary, cases, timeout=600, env=None, per_case_timeout=None, max_failures=None):
         """Execute cases; returns list of result dicts aligned with cases:
